@@ -1,6 +1,8 @@
 import sys, os
 sys.path.insert(0, os.path.join(os.path.dirname(os.path.abspath(__file__)), '..', 'engine'))
 from driver import *
+sys.path.insert(0, os.path.dirname(os.path.abspath(__file__)))
+import common_jobs
 
 
 def stub_render(ex):
@@ -17,6 +19,7 @@ def main(tier):
     ck.assumptions = ['lcdInv (proved inductive by C13)']
     ck.stubs_used.append('PPU.renderPixel / checkOverlappingSprites -> no-op (their frame condition is an obligation of C15)')
     jobs = [('ppu', 'VerifLcdIrq', {'src': s}) for s in range(6)] + [('ppu', 'VerifLcdIrqWrites', {'reg': r}) for r in range(5)]
+    common_jobs.run_lcd_inv(ck)
     ck.run(jobs, timeout_ms=600000, setup=stub_render)
     ck.finish(explanation='inductive per-cycle check of the interrupt requests made by PPU.EndMachineCycle: VBlank iff line 144 begins; STAT iff the single enabled source has its rising edge; nothing while the LCD is off; register writes request nothing')
 
